@@ -45,15 +45,15 @@ static void run(const std::vector<std::string> & t)
       n = nexti();
       bool f = ls->setDataSize(static_cast<size_t>(n));
       out += f ? " f1" : " f0";
-    } else if (op == "R") {
+    } else if (op == "R" || op == "Q") {
       long i = nexti(), m = nexti();
       std::vector<T> row(m);
       for (long j = 0; j < m; ++j) {row[j] = nextf();}
-      T y = nextf(), w = nextf();
+      T y = nextf(), w = op == "R" ? nextf() : T(0);
       if (!(i < ls->getY().rows() && m == ls->getJ().cols())) {out += " undef"; break;}
       for (long j = 0; j < m; ++j) {ls->getJ()(i, j) = row[j];}
       ls->getY()(i) = y;
-      ls->getW()(i) = w;
+      if (op == "R") {ls->getW()(i) = w;}
     } else if (op == "P" || op == "A") {
       long kk = nexti();
       Matrix A(kk, kk);
